@@ -108,9 +108,9 @@ def build_h2():
 
 
 def specs(tier):
-    out = [Spec("h1_replay_global_txid", build_h1(), cfg=replay_cfg(), unwind=3, timeout=600,
+    out = [Spec("h1_replay_global_txid", build_h1(), cfg=replay_cfg(), unwind=3, timeout=1800,
                 desc="real sequential-replay closure with revm's Evm / handler / state as recording ghosts", bounds={}),
-           Spec("h2_parallel_global_txid", build_h2(), cfg=replay_cfg(), unwind=3, timeout=600,
+           Spec("h2_parallel_global_txid", build_h2(), cfg=replay_cfg(), unwind=3, timeout=1800,
                 desc="real GrevmExecutor::execute_incarnation with the planner query recorded", bounds={})]
     pick = [(c08, "h3_publish", "h3_order_publish_writes"), (c16, "step_S_n3", "h3_order_dependency_release"),
             (c13, "h1_violation_predicate", "h3_order_reserve_scan"), (c02, "step_R_n3", "h3_order_execute_task")]
